@@ -209,6 +209,67 @@ pub fn run(ctx: &mut Ctx) {
         if !alive(ctx, &ep, &format!("round {}: {} hand-made headers and random datagrams", round, h)) {
             return;
         }
+        // (3b) address-validation tokens: the token of a real second Initial (the one the endpoint's Retry handed out) cut to
+        // every length, extended, and with single bytes changed - each under a fresh connection id, with the length field
+        // of the header adjusted so that the header itself stays well-formed
+        let mut tk = 0u64;
+        for p in &initials {
+            if p.len() < 7 || p[0] & 0x80 == 0 {
+                continue;
+            }
+            let dl = p[5] as usize;
+            let so = 6 + dl;
+            if p.len() <= so {
+                continue;
+            }
+            let sl = p[so] as usize;
+            let to = so + 1 + sl;
+            if p.len() <= to {
+                continue;
+            }
+            // token length varint (1 or 2 bytes for the sizes at hand)
+            let (tlen, tl_bytes) = match p[to] >> 6 {
+                0 => ((p[to] & 0x3f) as usize, 1),
+                1 if p.len() > to + 1 => ((((p[to] & 0x3f) as usize) << 8) | p[to + 1] as usize, 2),
+                _ => continue,
+            };
+            if tlen == 0 || p.len() < to + tl_bytes + tlen {
+                continue;
+            }
+            let token = p[to + tl_bytes..to + tl_bytes + tlen].to_vec();
+            let rest = p[to + tl_bytes + tlen..].to_vec();
+            let mut variants: Vec<Vec<u8>> = (0..=tlen).map(|k| token[..k].to_vec()).collect();
+            for extra in [1usize, 7, 64] {
+                let mut t = token.clone();
+                t.extend(ctx.rng.bytes(extra));
+                variants.push(t);
+            }
+            for i in 0..tlen {
+                let mut t = token.clone();
+                t[i] ^= 0x01;
+                variants.push(t);
+            }
+            for t in variants {
+                let mut q = p[..5].to_vec();
+                q.push(dl as u8);
+                q.extend(ctx.rng.bytes(dl));
+                q.extend_from_slice(&p[so..to]);
+                if t.len() < 64 {
+                    q.push(t.len() as u8);
+                } else {
+                    q.push(0x40 | (t.len() >> 8) as u8);
+                    q.push(t.len() as u8);
+                }
+                q.extend_from_slice(&t);
+                q.extend_from_slice(&rest);
+                send(&q);
+                tk += 1;
+            }
+        }
+        ctx.stat_add("quic_token_variants", tk);
+        if !alive(ctx, &ep, &format!("round {}: {} Initial packets with truncated, extended and altered address-validation tokens", round, tk)) {
+            return;
+        }
         // (4) TCP: garbage and near-TLS first bytes, then silence or close
         let mut t = 0u64;
         let hello = crate::c12::rustls_hello("localhost", &[b"h2"]);
